@@ -14,6 +14,7 @@ def main():
     r.add_argument('path')
     s = sub.add_parser('selftest')
     s.add_argument('props', nargs='*')
+    s.add_argument('--seeds', action='store_true')
     a = ap.parse_args()
     if a.cmd == 'check':
         seed = int(os.environ.get('VERIF_SEED', '0') or 0)
@@ -31,7 +32,7 @@ def main():
         sys.exit(replay.run_file(a.path))
     if a.cmd == 'selftest':
         from engine import selftest
-        sys.exit(selftest.main(a.props))
+        sys.exit(selftest.main(a.props + (['--seeds'] if a.seeds else [])))
     ap.print_help()
     sys.exit(3)
 
